@@ -14,7 +14,7 @@ import (
 // XXX should not call this directly.
 // call this from DeUMoney (SetUMoney).
 func passwdUpdateMoney(uid ptttype.UID, money int32) (err error) {
-	if uid < 1 || uid >= ptttype.MAX_USERS {
+	if uid < 1 || uid > ptttype.MAX_USERS {
 		return ErrInvalidUID
 	}
 
